@@ -1,9 +1,214 @@
-// C01: not built yet (stub so that main.rs is already wired; replace the body, keep the two signatures).
-use crate::util::Sink;
+// C01: the raw-data decoders are total. Every decoder of the detector crate is fed near-valid and hostile
+// inputs; the case lines reuse the tags of the decoder's own property module (adc, c3chunk, pwbv2, c4reasm,
+// trg, cb, nm), so the implementation's observation (ok + accessors / err / panic) is compared with the proved
+// model of that decoder, and the driver additionally runs every case through a second build of this harness
+// WITH overflow checks: the two builds must print the same line.
+use crate::util::*;
+use crate::{c02, c03, c04, c05, c06, c07};
 
-pub fn run(_tier: &str, _seed: u64, _s: &mut Sink) {}
+fn emit(s: &mut Sink, case: String, label: &str) {
+    let o = crate::observe_line(&case);
+    s.put(&case, &o, label, true);
+}
 
-/// implementation observation for a case line of this module (None: not one of mine)
+const EDGE: [u8; 7] = [0, 1, 2, 0x7f, 0x80, 0xfe, 0xff];
+
+/// a packet with each of its first `upto` bytes set to the edge values, truncated / extended by every
+/// amount in -40..=40, and with single bit flips
+fn near(s: &mut Sink, r: &mut Rng, tag: &str, label: &str, base: &[u8], upto: usize, thorough: bool) {
+    emit(s, format!("{tag} {}", hex(base)), label);
+    for i in 0..upto.min(base.len()) {
+        for &v in EDGE.iter() {
+            if thorough || r.chance(1, 3) {
+                let mut b = base.to_vec();
+                b[i] = v;
+                emit(s, format!("{tag} {}", hex(&b)), &format!("{label}-byte"));
+            }
+        }
+    }
+    for d in 1..=40usize {
+        if base.len() >= d && (thorough || d <= 8 || r.chance(1, 4)) {
+            emit(s, format!("{tag} {}", hex(&base[..base.len() - d])), &format!("{label}-truncated"));
+        }
+        if thorough || d <= 4 || r.chance(1, 8) {
+            let mut b = base.to_vec();
+            b.extend(r.bytes(d));
+            emit(s, format!("{tag} {}", hex(&b)), &format!("{label}-extended"));
+        }
+    }
+    for _ in 0..(if thorough { 64 } else { 12 }) {
+        let mut b = base.to_vec();
+        let i = r.below(b.len() as u64) as usize;
+        b[i] ^= 1 << r.below(8);
+        emit(s, format!("{tag} {}", hex(&b)), &format!("{label}-bitflip"));
+    }
+}
+
+pub fn run(tier: &str, seed: u64, s: &mut Sink) {
+    let mut r = Rng::new(seed ^ 0xC01);
+    let thorough = tier == "thorough";
+    let reps = if thorough { 12 } else { 2 };
+
+    // ---- ADC: firmware-controlled counters at 0, 1, 2, n+1.. and their maxima; keep_last around its guards
+    for _ in 0..reps {
+        let base = c02::valid(&mut r);
+        near(s, &mut r, "adc", "adc", &base.long(), 36, thorough);
+        near(s, &mut r, "adc", "adc-short", &base.short(), 16, thorough);
+        let n = base.samples.len() as i64;
+        for req in [0i64, 1, 2, 3, n, n + 1, n + 2, n + 3, 65534, 65535] {
+            for kl in [0u16, 1, 2, 33, 34, 35, 2047, 2048, 4094, 4095] {
+                for (supp, kb) in [(false, false), (false, true), (true, false), (true, true)] {
+                    let mut p = base.clone();
+                    p.req = req.clamp(0, 65535) as u16;
+                    p.keep_last = kl;
+                    p.supp = supp;
+                    p.keep_bit = kb;
+                    emit(s, format!("adc {}", hex(&p.long())), "adc-counters");
+                }
+            }
+        }
+        for ns in [0usize, 1, 2, 62, 63, 64, 65] {
+            let mut p = base.clone();
+            p.samples.truncate(ns);
+            p.req = r.pick(&[0u16, 1, 2, ns as u16 + 2]);
+            emit(s, format!("adc {}", hex(&p.long())), "adc-few-samples");
+        }
+    }
+    // ---- TRG
+    for _ in 0..reps {
+        let base = c06::valid(&mut r).bytes();
+        near(s, &mut r, "trg", "trg", &base, 80, thorough);
+    }
+    // ---- PWB chunk: chunk_length around every guard and at the u16 extremes, on short and on large slices
+    let devs = c03::devices();
+    for _ in 0..reps {
+        for n in [1usize, 2, 3, 4, 5, 8, 61] {
+            let f = c03::valid(&mut r, &devs, n);
+            near(s, &mut r, "c3chunk", "chunk", &f.bytes(), 20, thorough);
+            let len = f.bytes().len() as i64;
+            for cl in [0i64, 1, 2, 3, 4, len - 29, len - 28, len - 27, len - 26, len - 25, len - 24, len - 23, 32767, 32768, 65532, 65533, 65534, 65535] {
+                let mut g = f.clone();
+                g.clen = cl.clamp(0, 65535) as u16;
+                emit(s, format!("c3chunk {}", hex(&g.bytes())), "chunk-length-field");
+            }
+        }
+    }
+    for n in [65532usize, 65533, 65534, 65535] {
+        let f = c03::valid(&mut r, &devs, n);
+        emit(s, format!("c3chunk {}", hex(&f.bytes())), "chunk-max-size");
+        let mut g = f.clone();
+        g.clen = 65535;
+        emit(s, format!("c3chunk {}", hex(&g.bytes())), "chunk-max-size");
+    }
+    // ---- PWB packet from bytes: masks, requested_samples, last cell at their extremes
+    let macs = c05::known_macs();
+    for _ in 0..reps {
+        let base = c05::small_valid(&mut r, &macs);
+        near(s, &mut r, "pwbv2", "pwb", &base.bytes(), 52, thorough);
+        for req in [0u16, 1, 2, 510, 511, 512, 513, 32767, 32768, 65534, 65535] {
+            for sent in [0u128, 1, 1 << 78, 1 << 79, (1 << 79) - 1, (1 << 80) - 1, r.next() as u128] {
+                let mut p = base.clone();
+                p.req = req;
+                p.sent = sent;
+                if req <= 600 {
+                    p.fill(&mut r);
+                }
+                emit(s, format!("pwbv2 {}", hex(&p.bytes())), "pwb-counters");
+            }
+        }
+    }
+    // ---- PWB packet from a list of chunks: empty list, one chunk, ids at 0 / 1 / 65535, duplicates, mixtures
+    for _ in 0..reps {
+        let (nch, nsm) = (r.range(1, 4) as usize, r.pick(&[0usize, 1, 2, 5]));
+        let payload = c04::pwb_payload(&mut r, nch, nsm);
+        for size in [1usize, 7, 52, payload.len().max(1), 65535] {
+            let m = c04::split(&mut r, &devs, &payload, size);
+            if m.chunks.len() > 40 {
+                continue;
+            }
+            let nat = m.natural();
+            emit(s, format!("c4reasm {}", m.line(&nat)), "reasm");
+            let mut rev = nat.clone();
+            rev.reverse();
+            emit(s, format!("c4reasm {}", m.line(&rev)), "reasm");
+            for k in 0..m.chunks.len().min(6) {
+                for id in [0u16, 1, 2, 32767, 32768, 65534, 65535] {
+                    let mut g = m.clone();
+                    g.chunks[k].id = id;
+                    emit(s, format!("c4reasm {}", g.line(&nat)), "reasm-id-field");
+                }
+                let mut dup = nat.clone();
+                dup.push(k);
+                emit(s, format!("c4reasm {}", m.line(&dup)), "reasm-duplicate");
+                let mut drop = nat.clone();
+                drop.remove(k);
+                emit(s, format!("c4reasm {}", m.line(&drop)), "reasm-missing");
+            }
+        }
+        emit(s, "c4reasm -".to_string(), "reasm-empty");
+    }
+    // ---- Chronobox FIFO: streams, every word class followed by data, truncated tails
+    for k in 0..(if thorough { 300 } else { 40 }) {
+        let b = c07::stream(&mut r, if k % 8 == 0 { 60 } else { 10 });
+        emit(s, format!("cb {}", hex(&b)), "cb-stream");
+        if !b.is_empty() {
+            let mut c = b.clone();
+            let i = r.below(c.len() as u64) as usize;
+            let e = r.pick(&EDGE);
+            c[i] = e;
+            emit(s, format!("cb {}", hex(&c)), "cb-stream-byte");
+        }
+    }
+    // ---- bank names: every length 0..=8 over an alphabet with multi-byte characters at every offset
+    let alpha: Vec<&str> = vec!["P", "C", "B", "A", "T", "0", "1", "9", "F", "f", "G", "V", "W", "+", "-", " ", "\0", "é", "¹", "€", "𝄞"];
+    let n_names = if thorough { 60000 } else { 4000 };
+    for _ in 0..n_names {
+        let len = r.below(6) as usize;
+        let mut name = String::new();
+        // bias to the documented prefixes so that the deeper slicing code is reached
+        match r.below(6) {
+            0 => name.push_str("PC"),
+            1 => name.push('B'),
+            2 => name.push('C'),
+            3 => name.push_str("CBF"),
+            _ => {}
+        }
+        for _ in 0..len {
+            name.push_str(r.pick(&alpha));
+        }
+        emit(s, format!("nm {}", hex(name.as_bytes())), "name");
+    }
+    // ---- arbitrary bytes of every length 0..=120 and a few long strings up to 65 KiB, for every byte decoder
+    for len in 0..=120usize {
+        for tag in ["adc", "trg", "c3chunk", "pwbv2", "cb"] {
+            let mut b = r.bytes(len);
+            if r.chance(1, 2) && len >= 2 {
+                // plausible first bytes so that the deeper code is reached
+                match tag {
+                    "adc" => {
+                        b[0] = 1;
+                        b[1] = 3;
+                    }
+                    "pwbv2" => {
+                        b[0] = 2;
+                        b[1] = b'A' + (r.below(4) as u8);
+                    }
+                    _ => {}
+                }
+            }
+            emit(s, format!("{tag} {}", hex(&b)), "random-length");
+        }
+    }
+    for len in [1000usize, 4096, 65535, 65536, 66560] {
+        for tag in ["adc", "trg", "c3chunk", "pwbv2", "cb"] {
+            if thorough || r.chance(1, 2) {
+                emit(s, format!("{tag} {}", hex(&r.bytes(len))), "random-long");
+            }
+        }
+    }
+}
+
+/// the case tags belong to the decoders' own modules
 pub fn observe_line(_line: &str) -> Option<String> {
     None
 }
